@@ -66,21 +66,30 @@ impl Family {
         Config { loggers, capacity: 64, file: false }
     }
     pub fn describe(&self) -> String {
+        let one = |x: &(&'static str, bool, usize)| format!("{}/{}/{{{}}}", x.0, if x.1 { "additive" } else { "non-additive" }, WIRINGS[x.2].join(","));
         let d = |o: &Vec<Opt>| -> String {
-            let has_none = o.iter().any(|x| x.is_none());
-            let mut levels: Vec<&str> = Vec::new();
-            for x in o.iter().flatten() {
-                if !levels.contains(&x.0) {
-                    levels.push(x.0);
-                }
+            let none = if o.iter().any(|x| x.is_none()) { "absent | " } else { "" };
+            let pres: Vec<&(&'static str, bool, usize)> = o.iter().flatten().collect();
+            if pres.is_empty() {
+                return "absent".to_string();
             }
-            let n_present = o.iter().flatten().count();
-            if n_present == 0 {
-                "absent".to_string()
-            } else if n_present == levels.len() * 8 {
-                format!("{}level in {:?} x additive in [t,f] x appenders in [{{}},{{X}},{{Y}},{{X,Y}}]", if has_none { "absent | " } else { "" }, levels)
+            let mut levels: Vec<&str> = Vec::new();
+            let mut adds: Vec<bool> = Vec::new();
+            let mut wires: Vec<usize> = Vec::new();
+            for x in &pres {
+                if !levels.contains(&x.0) { levels.push(x.0) }
+                if !adds.contains(&x.1) { adds.push(x.1) }
+                if !wires.contains(&x.2) { wires.push(x.2) }
+            }
+            if pres.len() > 1 && pres.len() == levels.len() * adds.len() * wires.len() {
+                format!(
+                    "{none}level in [{}] x additive in [{}] x appenders in [{}]",
+                    levels.join(","),
+                    adds.iter().map(|a| if *a { "t" } else { "f" }).collect::<Vec<_>>().join(","),
+                    wires.iter().map(|w| format!("{{{}}}", WIRINGS[*w].join(","))).collect::<Vec<_>>().join(",")
+                )
             } else {
-                format!("{}{:?}", if has_none { "absent | " } else { "" }, o.iter().flatten().map(|(l, a, w)| format!("{l}/{}/{:?}", if *a { "additive" } else { "non-additive" }, WIRINGS[*w])).collect::<Vec<_>>())
+                format!("{none}{}", pres.iter().map(|x| one(x)).collect::<Vec<_>>().join(" | "))
             }
         };
         format!("{}: root = {}; a = {}; a::b = {}; ab = {}  [{} configurations]", self.name, d(&self.opts[0]), d(&self.opts[1]), d(&self.opts[2]), d(&self.opts[3]), self.size())
@@ -122,6 +131,30 @@ pub fn route_families(tier: &str) -> Vec<Family> {
             v.push(fam("a and ab (reduced)", root(), pick(&["trace"], &[0, 1, 2]), absent(), pick(&["error"], &[0, 1, 2])));
         }
         "thorough" => {
+            // (1) at most one non-root logger, every option of every slot
+            v.push(fam("no non-root logger", maybe(&ALL), absent(), absent(), absent()));
+            v.push(fam("only a", maybe(&ALL), present(&ALL), absent(), absent()));
+            v.push(fam("only a::b", maybe(&ALL), absent(), present(&ALL), absent()));
+            v.push(fam("only ab", maybe(&ALL), absent(), absent(), present(&ALL)));
+            // (2) exactly two non-root loggers, every option of both, under 17 roots:
+            // absent | every level x additive x every wiring | info x non-additive x every wiring
+            let roots = || -> Vec<Opt> {
+                let mut r: Vec<Opt> = vec![None];
+                for l in ALL {
+                    for w in 0..WIRINGS.len() {
+                        r.push(Some((l, true, w)));
+                    }
+                }
+                for w in 0..WIRINGS.len() {
+                    r.push(Some(("info", false, w)));
+                }
+                r
+            };
+            v.push(fam("a and a::b", roots(), present(&ALL), present(&ALL), absent()));
+            v.push(fam("a and ab", roots(), present(&ALL), absent(), present(&ALL)));
+            v.push(fam("a::b and ab", roots(), absent(), present(&ALL), present(&ALL)));
+        }
+        "full2" => {
             // every configuration with at most two non-root loggers, every option of every slot (45,025)
             v.push(fam("no non-root logger", maybe(&ALL), absent(), absent(), absent()));
             v.push(fam("only a", maybe(&ALL), present(&ALL), absent(), absent()));
